@@ -115,3 +115,13 @@ def day_label_status(ordinal, z):
 
 def rule_signature(z, y0=2000, y1=2038):
     return tuple((a.isoformat(), p, o) for a, p, o in transitions(z, y0, y1))
+
+
+def replace_hour(m, z, hour):
+    """UTC minute of `Timestamp.replace(hour=hour, minute=0, second=0, microsecond=0)` applied to the instant m in
+    zone z: the wall-clock reading of the same local date, resolved with the `fold` of the original instant (an
+    ambiguous reading keeps the side of the repeated hour the instant was on; a nonexistent reading is taken with
+    the offset before the gap for fold=0)"""
+    d = to_dt(m).astimezone(zone(z))
+    w = dt.datetime(d.year, d.month, d.day, hour, 0, tzinfo=zone(z), fold=d.fold)
+    return to_minutes(w.astimezone(UTC))
